@@ -295,10 +295,10 @@ func init() {
 		return &Check{
 			ID: "C10",
 			Runs: []Run{{S: c10Scenario(), Opt: map[Tier]Options{
-				Quick:    {Depth: 4, Budget: 150 * time.Second, ReplayEvery: 4},
+				Quick:    {Depth: 4, Budget: 150 * time.Second, ReplayEvery: 16},
 				Thorough: {Depth: 7, Budget: 15 * time.Minute, ReplayEvery: 8, MaxStates: 400000},
 			}}, {S: streamSameBlock("streams-same-block", streamConservation), Opt: map[Tier]Options{
-				Quick:    {Depth: 3, Budget: 60 * time.Second, ReplayEvery: 8},
+				Quick:    {Depth: 3, Budget: 60 * time.Second, ReplayEvery: 16},
 				Thorough: {Depth: 5, Budget: 6 * time.Minute, ReplayEvery: 8, MaxStates: 300000},
 			}}},
 			// escrow backing at block boundaries, conservation / fee split / ledger from observed movements, registered invariant,
